@@ -133,28 +133,40 @@ def judge(case, out, app, probe):
 
 def run_case(run, e2, harnesses, case):
     key = (case["kind"], bool(case.get("proxy")), bool(case.get("statsd")))
-    h = harnesses.get(key)
-    if h is None:
-        cs = {"keepalive": 2}
-        if case.get("proxy"):
-            cs["proxy_protocol"] = True
-        if case.get("statsd"):
-            cs["statsd_host"] = "127.0.0.1:18125"      # instrumentation on: the Statsd logger sits in the access-log path
-        h = harnesses[key] = e2.Harness(case["kind"], cs)
-    app = App(streaming=bool(case.get("streaming_app")))
-    if app.streaming:
-        run.count("streaming_application_cases")
     stream = bytes.fromhex(case["stream"])
     mode = case["mode"]
     peer = {"unix": "", "unixb": b"", "tcp6": ("::1", 50001, 0, 0)}.get(case.get("peer"), ("127.0.0.1", 50000))
-    out = h.connection(stream, app, mode=mode, partial_read=case.get("partial_read", 0),
-                       timeout=3.0, peer=peer)
-    papp = App()
-    probe = h.connection(CANON, papp, timeout=3.0, peer=peer)
-    v = judge(case, out, app, probe)
-    if out["hung"] or probe["hung"]:
-        # a loop that is still running owns harness state: start the next case from a fresh worker object
-        harnesses.pop(key).close()
+
+    def execute(timeout):
+        h = harnesses.get(key)
+        if h is None:
+            cs = {"keepalive": 2}
+            if case.get("proxy"):
+                cs["proxy_protocol"] = True
+            if case.get("statsd"):
+                cs["statsd_host"] = "127.0.0.1:18125"      # instrumentation on: the Statsd logger sits in the access-log path
+            h = harnesses[key] = e2.Harness(case["kind"], cs)
+        app = App(streaming=bool(case.get("streaming_app")))
+        out = h.connection(stream, app, mode=mode, partial_read=case.get("partial_read", 0), timeout=timeout, peer=peer)
+        papp = App()
+        probe = h.connection(CANON, papp, timeout=timeout, peer=peer)
+        v = judge(case, out, app, probe)
+        if out["hung"] or probe["hung"]:
+            # a loop that is still running owns harness state: start the next case from a fresh worker object
+            harnesses.pop(key).close()
+        return v, out, probe
+
+    if case.get("streaming_app"):
+        run.count("streaming_application_cases")
+    v, out, probe = execute(3.0)
+    if v and (out["hung"] or probe["hung"]):
+        # "still running at the watchdog" is a wall-clock reading (3 s): on a machine that is very busy a loop that is merely
+        # slow looks the same.  The input is deterministic - believe it only if it happens again on a fresh worker object
+        # with five times the time
+        run.count("watchdog_cases_run_again")
+        v, out, probe = execute(15.0)
+        if not v:
+            run.count("watchdog_cases_clean_with_more_time")
     # reach
     allowed, msgs = allowed_calls(stream, case.get("proxy", False))
     if msgs and msgs[-1].status == "reject":
@@ -839,7 +851,8 @@ def main(tier, seed):
     shards += [{"kind": "live", "class": c, "n": 150 if q else 1500, "seed": seed, "tier": tier}
                for c in ("sync", "gthread", "gevent", "eventlet")]
     # events on idle keep-alive connections around the expiry of the keep-alive time (threaded worker: its loop reaps them)
-    shards += [{"kind": "kaexp", "class": c, "rounds": 2 if q else 6, "seed": seed, "tier": tier} for c in ["gthread"]]
+    # (first in the list: it mostly sleeps, and so overlaps with everything else)
+    shards = [{"kind": "kaexp", "class": c, "rounds": 2 if q else 6, "seed": seed, "tier": tier} for c in ["gthread"]] + shards
     run.require("live_kaexp_events_sent", "live_kaexp_answered_after_keepalive_time", "live_kaexp_liveness_probes")
     tls_classes = ["sync", "gthread", "gevent", "eventlet"]
     for i, c in enumerate(tls_classes if not q else ["sync", tls_classes[1 + seed % 3]]):
@@ -850,6 +863,11 @@ def main(tier, seed):
     run.assumptions = [
         "live sub-tier: 150 hostile / truncated / reset (SO_LINGER 0) connections per worker class against real servers over TCP; judged: "
         "the server keeps serving and no worker pid changes",
+        "keep-alive expiry sweep (live, gthread, keepalive 1 s, four workers): clients that were served send garbage / a malformed / valid / "
+        "half request or leave (FIN, RST) at keepalive + {-0.10 .. +1.00} s after their response; judged: same worker pids afterwards, the "
+        "next connection is served, no worker failure in the error log, at most one 4xx/5xx reply with Connection: close after garbage; "
+        "'held' needs at least one late event that was answered after the keep-alive time (it met the window before the worker reaped)",
+        "a case the 3 s wall-clock watchdog flags is run again on a fresh worker object with 15 s and reported only if it is flagged again",
         "strict reference (vlib/ref_http.py) decides which requests may reach the application; EITHER inputs may go either way",
         "a request with a complete valid head and a broken body has legitimately reached the application; the program reads the whole body first",
         "clients that close without reading cannot observe the reply: only app calls, closure, escape and liveness are judged for them",
